@@ -12,7 +12,8 @@ ERASE = '_ZNSt8_Rb_treeI9COutPointS0_St9_IdentityIS0_ESt4lessIS0_ESaIS0_EE8_M_er
 GETPOS = '_ZNSt8_Rb_treeI9COutPointS0_St9_IdentityIS0_ESt4lessIS0_ESaIS0_EE24_M_get_insert_unique_posERKS0_'
 def shapes(a, b): return [{'NIN': i, 'NOUT': o} for i in range(1, a + 1) for o in range(1, b + 1)]
 NOLOG = ['_ZN4util3log23LogPrintFormatInternal_[A-Za-z0-9_]*', '_ZN4util6detail24CheckNumFormatSpecifiersILj[0-9]+EEEvPKc']
-CB_ENT = [('pa2_avoff_ba4', '2, -1, 4'), ('pa3_avoff_ba4', '3, -1, 4'), ('pa4_avoff_ba4', '4, -1, 4')]
+CB_ENT = [('pa3_avoff_ba4', '3, -1, 4'), ('pa4_avoff_ba4', '4, -1, 4')]
+CB_TENT = [('pa2_avoff_ba4', '2, -1, 4')] + CB_ENT
 HARNESSES = [
     H('txinputs', 'txinputs.cpp', 'h_txinputs', link=['consensus/tx_verify.cpp', 'primitives/transaction.cpp', 'script/script.cpp', 'uint256.cpp', 'hash.cpp'],
       variants=shapes(2, 2), tvariants=shapes(3, 3), nofmt=True, unwind=12, memunwind=104, 
@@ -23,10 +24,10 @@ HARNESSES = [
       assumptions=['coin values in [-2^62, 2^62]: CheckTxInputs adds a coin value to the running sum before range-checking it, so a (corrupted-database-only) value near INT64_MAX would overflow int64 in the addition itself; coins created by validated transactions are always in [0, MAX_MONEY]', 'every output value and the output sum are in [0, MAX_MONEY] (what CheckTransaction guarantees before CheckTxInputs runs; decided by C03)', 'spend height in [0, INT_MAX]', 'input i spends outpoint (hash_i, i): distinct outpoints'],
       bounds='nin,nout in 1..2 (thorough 1..3); all amounts/heights/flags symbolic full width'),
     H('cbamount', 'cbamount.cpp', 'h_cbamount', link=['validation.cpp', 'coins.cpp', 'chain.cpp', 'arith_uint256.cpp', 'uint256.cpp', 'primitives/transaction.cpp', 'primitives/block.cpp', 'script/script.cpp', 'hash.cpp', 'pow.cpp'],
-      entries=CB_ENT, shadow=['nofmt', 'nopool'], noop=NOLOG, interpose=True, unwind=16, unwindset='_ZNK9base_blobILj256EE6GetHexB5cxx11Ev.0:34', memunwind=200, timeout=600, objbits=11,
+      entries=CB_ENT, tentries=CB_TENT, shadow=['nofmt', 'nopool'], noop=NOLOG, interpose=True, unwind=16, unwindset='_ZNK9base_blobILj256EE6GetHexB5cxx11Ev.0:34', memunwind=200, timeout=600, objbits=11,
       functions=['Chainstate::ConnectBlock (whole function; observed: the bad-cb-amount verdict)', 'GetBlockSubsidy (real)', 'CTransaction::GetValueOut', 'MoneyRange on accumulated fees', 'CBlockIndex::GetAncestor/BuildSkip', 'GetBlockScriptFlags', 'real CCoinsViewCache over an empty base'],
-      stubs=['Consensus::CheckTxInputs -> true with a symbolic fee in [0, MAX_MONEY] (its own rules: harness txinputs), records the height it was given', 'CheckInputScripts -> recorder with symbolic verdict', 'CheckBlock, SequenceLocks -> true; GetTransactionSigOpCost -> 0; UpdateCoins, WriteBlockUndo -> counters',
-             'GetBlockProofEquivalentTime -> arbitrary int64', 'CBlockHeader::GetHash / CTransaction::ComputeHash -> constants', 'phantom ChainstateManager/Chainstate/CChainParams as in C57 (assumevalid disabled); nSubsidyHalvingInterval symbolic 1..8', 'logging emptied; tinyformat -> empty strings; PoolAllocator -> operator new'],
+      stubs=['Consensus::CheckTxInputs -> true with a symbolic fee in [0, MAX_MONEY] (its own rules: harness txinputs), records the height it was given', 'CheckInputScripts -> recorder, passes', 'CheckBlock, SequenceLocks -> true; GetTransactionSigOpCost -> 0; UpdateCoins, WriteBlockUndo -> counters',
+             'GetBlockProofEquivalentTime -> 0 (unreached: assumevalid disabled)', 'CBlockHeader::GetHash / CTransaction::ComputeHash -> constants', 'phantom ChainstateManager/Chainstate/CChainParams as in C57 (assumevalid disabled); nSubsidyHalvingInterval symbolic 1..8', 'logging emptied; tinyformat -> empty strings; PoolAllocator -> operator new'],
       assumptions=['fee reported for the ordinary transaction in [0, MAX_MONEY] (postcondition of CheckTxInputs, decided by txinputs)', 'coinbase output value in [0, MAX_MONEY] (CheckTransaction, C03)'],
-      bounds='block = coinbase + one transaction at height 2, 3 or 4 of a 7-block tree; halving interval 1..8 symbolic (0..4 halvings; first/last block of an era); coinbase value and fee 51-bit symbolic; fJustCheck, role, script verdict symbolic'),
+      bounds='block = coinbase + one transaction at height 3 or 4 (thorough also 2) of a 7-block tree; halving interval 1..8 symbolic (0..4 halvings; first/last block of an era); coinbase value and fee 51-bit symbolic; fJustCheck symbolic; chainstate role VALIDATED, scripts pass'),
 ]
